@@ -1,5 +1,5 @@
 #!/bin/bash
-# usage: trymut.sh <patch.diff> <prop> [<prop>...]     (env TIER=quick|thorough, PAR=<n>)
+# usage: trymut.sh <patch.diff> <prop> [<prop>...]     (env TIER=quick|thorough, PAR=<n>, BASE=<commit of /repo the patch was written against; default HEAD>)
 # Tries a seeded change without touching /repo: makes a scratch worktree of
 # /repo's HEAD under /tmp, applies the change there, runs the named checks
 # against it (VERIF_REPO) with evidence/replays redirected (VERIF_OUT), prints
@@ -8,7 +8,7 @@ export GOFLAGS=-mod=mod GOPROXY=off GOSUMDB=off GOTOOLCHAIN=local
 patch="$(readlink -f "$1")"; shift
 wt=$(mktemp -d /tmp/trymut-XXXXXX)
 rmdir "$wt"
-git -C /repo worktree add -q --detach "$wt" HEAD || exit 2
+git -C /repo worktree add -q --detach "$wt" "${BASE:-HEAD}" || exit 2
 cleanup() { git -C /repo worktree remove --force "$wt" 2>/dev/null; rm -rf "$wt" "$wt.out"; }
 trap cleanup EXIT
 if ! git -C "$wt" apply "$patch"; then echo "PATCH DOES NOT APPLY: $patch"; exit 2; fi
